@@ -8,7 +8,7 @@ RULE = ('PARSE strict: every string of <= k atoms over the LaTeX-significant alp
         'every single structural fault (unmatched { } $ \\( \\) \\[ \\] \\begin{x} \\end{x}) injected at every token boundary outside '
         'verbatim text and comments of generated well-formed documents; oracle: outcome is a tree or LatexWalkerParseError with '
         '0 <= pos <= len and (lineno, colno) = pos_to_lineno_colno(pos); faulty documents are rejected; sig = outcome class + error kind')
-TRUSTED = ['tokenizer model (C11)', 'closed world of argument parsers (standard argument types, legacy verbatim parsers)']
+TRUSTED = ['expression arguments with allow_pre_space=False are outside the model (context D cases run through the oracle only)', 'tokenizer model (C11)', 'closed world of argument parsers (standard argument types, legacy verbatim parsers)']
 ASSUMPTIONS = ['construct nesting below the interpreter recursion limit (about 140 levels)']
 TRIVIAL_SIGS = ()
 CASE_TIMEOUT = 10.0
